@@ -11,6 +11,8 @@ children's errors.  Single-failure programs yield singleton sets.
 
 from __future__ import annotations
 
+import re
+
 import itertools
 import operator
 from typing import Any, Optional
@@ -26,10 +28,29 @@ class Loose(Exception):
     """Outcome set grew beyond CAP: oracle declines to judge this run."""
 
 
+_CMP = re.compile(r"'(<|>|<=|>=)' not supported between instances of '([^']*)' and '([^']*)'")
+
+
+def _canon_args(e: BaseException) -> str:
+    """repr(e.args), with one normalisation: which side of an ill-typed comparison Python asks
+    first depends on the *expression classes* involved (a SchedulerExpression is a subclass of
+    TaskExpression and therefore gets to answer with its reflected operator first), so
+    "'<' not supported between 'int' and 'dict'" and "'>' ... 'dict' and 'int'" name the same
+    failure of the same comparison."""
+    r = repr(e.args)
+    if isinstance(e, TypeError):
+        m = _CMP.search(r)
+        if m and m.group(1) in (">", ">="):
+            flipped = {">": "<", ">=": "<="}[m.group(1)]
+            r = r[:m.start()] + (f"'{flipped}' not supported between instances of "
+                                 f"'{m.group(3)}' and '{m.group(2)}'") + r[m.end():]
+    return r
+
+
 def vkey(v: Any) -> Any:
     """Deep equality *and* type key for values."""
     if isinstance(v, BaseException):
-        return ("exc", type(v).__name__, repr(v.args))
+        return ("exc", type(v).__name__, _canon_args(v))
     if isinstance(v, D):
         return ("D", vkey(v.x), vkey(v.y), v.z)
     if isinstance(v, P):
